@@ -92,7 +92,29 @@ pub fn run_campaigns(ctx: &RunCtx, campaigns: &[Campaign]) -> Result<Value, Fail
                 Err(e) => inconclusive(&format!("create {}: {}", log.display(), e)),
             }
             if !c.dict.is_empty() {
-                cmd.arg(format!("-dict={}", fuzz_dir().join("dict").join(c.dict).display()));
+                // the hand-written dictionary plus the literals of the library's own source
+                let merged = work.join("dict.txt");
+                if w == 0 {
+                    let mut text = std::fs::read_to_string(fuzz_dir().join("dict").join(c.dict)).unwrap_or_default();
+                    text.push('\n');
+                    for t in crate::engine::dict::TOKENS {
+                        if t.is_empty() || t.len() > 24 {
+                            continue;
+                        }
+                        text.push('"');
+                        for b in t.iter() {
+                            match b {
+                                b'"' => text.push_str("\\\""),
+                                b'\\' => text.push_str("\\\\"),
+                                0x20..=0x7e => text.push(*b as char),
+                                _ => text.push_str(&format!("\\x{:02x}", b)),
+                            }
+                        }
+                        text.push_str("\"\n");
+                    }
+                    std::fs::write(&merged, text).unwrap_or_else(|e| inconclusive(&format!("write dict: {}", e)));
+                }
+                cmd.arg(format!("-dict={}", merged.display()));
             }
             children.push((w, arts, log, cmd.spawn().unwrap_or_else(|e| inconclusive(&format!("spawn fuzz target: {}", e)))));
         }
